@@ -100,7 +100,7 @@ def check_component(res, binp, entry, tier, seed, workdir, proof_broken=None):
     is_trace = getattr(cm, "IS_TRACE", False)
 
     def evaluate(cases):
-        outs = qv.run_impl(binp, comp, cases, subcmd=subcmd)
+        outs = qv.run_impl(binp, comp, cases, subcmd=subcmd, timeout=getattr(cm, "TIMEOUT", 900))
         if is_trace:
             outs = [cm.project(c, o) for c, o in zip(cases, outs)]
             fails, errs = qv.mon_eval_cases(module, cases, outs)
